@@ -52,6 +52,23 @@ fn run(r: &mut Run) -> Result<(), MachineryError> {
         let totals: Vec<usize> = (0..=12).collect();
         check_text_full(&text, &gaps, &totals, 4, &[("* ", "  "), ("", "> ")], cx);
     })?;
+    // every number of wrapped lines against every number of columns: the column-major layout with
+    // rows = ceil(lines / columns) leaves 0..columns-1 blank cells, spread over the last columns
+    let lmax = t.pick(16, 40) as u64;
+    let cmax = t.pick(7, 9);
+    r.range("C20/line-count-by-column-count", &format!("texts of L = 0..={} distinct words (\"a0 a1 ...\", every third one a double-width character) joined by spaces or by line breaks x columns 1..={} x total widths giving column widths 2, 3 and 5 x gap triples x break_words x algorithms", lmax, cmax), (lmax + 1) * 2, move |i, cx| {
+        let l = (i / 2) as usize;
+        let sep = if i % 2 == 0 { " " } else { "\n" };
+        let words: Vec<String> = (0..l).map(|k| if k % 3 == 2 { "\u{4f60}".to_string() } else { format!("{}{}", (b'a' + (k % 26) as u8) as char, k % 10) }).collect();
+        let text = words.join(sep);
+        cx.seq = idx_seq(i);
+        cx.set_input(&text);
+        for cols in 1..=cmax {
+            // column width = max(1, (total - gaps) / columns): totals for the gap-free triple
+            let totals: Vec<usize> = [2usize, 3, 5].iter().map(|cw| cw * cols).chain([2 * cols + cols - 1]).collect();
+            check_text_cols(&text, &gaps, &totals, cols, cx);
+        }
+    })?;
     // the escape grammar's byte ranges (text alphabets only carry sequences ending in 'm')
     r.range("C20/escape-grammar-scan", "for every byte b in 0x21..=0x7F the texts \"ESC[1bX12 345\" and \"ESC]8bX BEL 12 345\" through the same layout oracle (b = space excluded: the separators are specified to split at spaces, also inside a sequence)", 95 * 2, move |i, cx| {
         let b = (0x21 + (i % 95)) as u8 as char;
@@ -71,11 +88,19 @@ fn check_text_widths(text: &str, gaps: &[(&'static str, &'static str, &'static s
     check_text_full(text, gaps, totals, max_cols, &[("", "")], cx)
 }
 
+fn check_text_cols(text: &str, gaps: &[(&'static str, &'static str, &'static str)], totals: &[usize], cols: usize, cx: &mut Cx) {
+    check_text_range(text, gaps, totals, cols, cols, &[("", "")], cx)
+}
+
 fn check_text_full(text: &str, gaps: &[(&'static str, &'static str, &'static str)], totals: &[usize], max_cols: usize, indents: &[(&'static str, &'static str)], cx: &mut Cx) {
+    check_text_range(text, gaps, totals, 1, max_cols, indents, cx)
+}
+
+fn check_text_range(text: &str, gaps: &[(&'static str, &'static str, &'static str)], totals: &[usize], min_cols: usize, max_cols: usize, indents: &[(&'static str, &'static str)], cx: &mut Cx) {
     for &(ii, si) in indents {
         let gaps = gaps.iter().copied();
 
-        for cols in 1..=max_cols {
+        for cols in min_cols..=max_cols {
             for &total in totals {
                 for (l, m, rg) in gaps.clone() {
                     for bw in [true, false] {
